@@ -160,13 +160,13 @@ func (g *graph) nearestUncovered(from string) []*Edge {
 	return nil
 }
 
-// replayStep is one request of a replay artefact.
+// replayStep is one request of a history / replay artefact.
 type replayStep struct {
-	Req   AReq   `json:"req"`
-	Wire  wire   `json:"wire"`
-	Want  AOut   `json:"spec_outcome"`
-	WantT AState `json:"spec_state_after"`
-	Got   *seen  `json:"observed,omitempty"`
+	Req   AReq    `json:"req"`
+	Wire  wire    `json:"wire"`
+	Want  *AOut   `json:"impl_level_outcome,omitempty"`
+	WantT *AState `json:"impl_level_state_after,omitempty"`
+	Got   *seen   `json:"observed,omitempty"`
 }
 
 type replayDoc struct {
@@ -175,13 +175,19 @@ type replayDoc struct {
 	Texts     map[string]string `json:"texts"`
 	Hashes    map[string]string `json:"hashes"`
 	Steps     []replayStep      `json:"steps"`
-	FailAt    int               `json:"diverges_at_step"`
+	FailAt    int               `json:"leaves_property_at_step"`
+	Rules     map[string]bool   `json:"rules_at_that_step,omitempty"`
 }
 
+// reporter separates the two levels: violate = the observed behaviour leaves
+// the PROPERTY level of C15; drift = it differs from the implementation-level
+// machine of Apq but stays inside the property (counted, never a verdict).
 type reporter struct {
 	c        *vlib.Check
 	seenKeys map[string]int
 	soft     map[string]int
+	drifts   map[string]int
+	driftEx  []string
 }
 
 func (r *reporter) violate(key, detail string, doc any) {
@@ -192,65 +198,73 @@ func (r *reporter) violate(key, detail string, doc any) {
 	r.c.Violate(key, detail, doc)
 }
 
-// boundOnRealCache is C15's invariant evaluated directly on the real cache
-// with real SHA-256 (independent of the abstraction).
-func boundOnRealCache(s *snapshot) string {
-	for _, e := range s.Ents {
-		if sha(e.Val) != e.Key {
-			return fmt.Sprintf("cache binds hash %q to text %q whose SHA-256 is %s", e.Key, e.Val, sha(e.Val))
-		}
+func (r *reporter) drift(key, detail string) {
+	r.drifts[key]++
+	if r.drifts[key] == 1 && len(r.driftEx) < 8 {
+		r.driftEx = append(r.driftEx, key+": "+detail)
+		fmt.Fprintf(os.Stderr, "[c15] impl-level drift (not a violation) %s\n    %s\n", key, strings.ReplaceAll(detail, "\n", "\n    "))
 	}
-	return ""
 }
 
-// replayPath drives one tour through a fresh real server. Returns the
-// number of requests sent.
-func (rep *reporter) replayPath(path []*Edge, texts, valid, wrong []string, ro rigOpts, method string, seed int64) (int, error) {
+// replayPath drives one tour through a fresh real server. While the server
+// follows the implementation-level machine every request is compared exactly
+// with the edge TLC printed; the first difference is recorded as drift and
+// the rest of the tour is still sent. The whole observed history is returned
+// for the property-level validation.
+func (rep *reporter) replayPath(id string, path []*Edge, texts, valid, wrong []string, ro rigOpts, method string, seed int64) (*history, error) {
 	rnd := rand.New(rand.NewSource(seed))
 	cc := newConc(rnd, texts, valid, wrong, method)
 	rg, err := newRig(ro)
 	if err != nil {
-		return 0, err
+		return nil, err
 	}
 	defer rg.Close()
-	doc := replayDoc{Mechanism: "A: replay of a TLC-generated path", Rig: ro, Texts: cc.Text, Hashes: cc.Hash}
+	h := &history{ID: id, Mech: "A: replay of a TLC-generated tour", Rig: ro, Method: method, Workers: 1, cc: cc}
+	drifted := false
 	for i, e := range path {
 		w := cc.wire(e.A)
+		_, pre, err := rg.cache.Now()
+		if err != nil {
+			return nil, err
+		}
 		rp, o, err := rg.Do(w)
 		if err != nil {
-			return i, err
+			return nil, err
 		}
 		_, snap, err := rg.cache.Now()
 		if err != nil {
-			return i, err
+			return nil, err
 		}
-		got := cc.abstract(ro.Kind, ro.Cap, rp, o, snap)
-		doc.Steps = append(doc.Steps, replayStep{Req: e.A, Wire: w, Want: e.O, WantT: e.T, Got: &got})
+		got := cc.abstract(ro.Kind, ro.Cap, rp, o, pre, snap)
+		if got.Chg != !sameEnts(pre.Ents, snap.Ents) {
+			return nil, fmt.Errorf("decorator's change flag disagrees with the snapshots at request %d of %s", i+1, id)
+		}
+		st := replayStep{Req: e.A, Wire: w, Got: &got}
 		rep.c.AddEvals(1)
-		rep.c.Class(ro.Kind + "/" + e.A.form() + "->" + e.O.Class)
-		if msg := boundOnRealCache(snap); msg != "" {
-			doc.FailAt = i + 1
-			rep.violate("P:bound:"+e.A.form(), fmt.Sprintf("after request %d (%s, %s %s%s): %s", i+1, e.A.form(), w.Method, w.Query, w.Body, msg), doc)
-			return i + 1, nil
+		if !drifted {
+			eo, et := e.O, e.T
+			st.Want, st.WantT = &eo, &et
+			rep.c.Class(ro.Kind + "/" + e.A.form() + "->" + e.O.Class)
+			if d := diff(e.O, e.T, got); len(d) > 0 {
+				drifted = true
+				wantJ, _ := json.Marshal(map[string]any{"outcome": e.O, "coarse_class": coarse(e.O.Class), "state_after": e.T})
+				rep.drift("A:"+e.A.form()+":"+strings.Join(d, "+"),
+					fmt.Sprintf("cache=%s cap=%d, request %d of tour %s: %s\nsent: %s %s%s\nimplementation-level machine: %s\nreal server: %s",
+						ro.Kind, ro.Cap, i+1, id, mustJSON(e.A), w.Method, w.Query, w.Body, wantJ, mustJSON(got)))
+			} else {
+				// informative: the error wording of the APQ rejections
+				if c := e.O.Class; (c == "mismatch" || c == "invalid" || c == "version" || c == "decode" || c == "notfound") && got.Fine != c {
+					rep.soft[c+"->"+got.Fine+" ("+got.Msg+")"]++
+				}
+				if c := e.O.Class; c == "notfound" && got.Code != "PERSISTED_QUERY_NOT_FOUND" {
+					rep.soft["notfound without extensions.code PERSISTED_QUERY_NOT_FOUND"]++
+				}
+			}
 		}
-		if d := diff(e.O, e.T, got); len(d) > 0 {
-			doc.FailAt = i + 1
-			wantJ, _ := json.Marshal(map[string]any{"outcome": e.O, "coarse_class": coarse(e.O.Class), "state_after": e.T})
-			gotJ, _ := json.Marshal(got)
-			rep.violate("A:"+e.A.form()+":"+strings.Join(d, "+"),
-				fmt.Sprintf("cache=%s cap=%d, request %d of the path: %s\n  sent: %s %s%s\n  specification: %s\n  real server:   %s\n  response body: %s",
-					ro.Kind, ro.Cap, i+1, mustJSON(e.A), w.Method, w.Query, w.Body, wantJ, gotJ, strings.TrimSpace(rp.Body)), doc)
-			return i + 1, nil
-		}
-		// informative: the error wording of the four APQ rejections
-		if c := e.O.Class; (c == "mismatch" || c == "invalid" || c == "version" || c == "decode" || c == "notfound") && got.Fine != c {
-			rep.soft[c+"->"+got.Fine+" ("+got.Msg+")"]++
-		}
-		if c := e.O.Class; c == "notfound" && got.Code != "PERSISTED_QUERY_NOT_FOUND" {
-			rep.soft["notfound without extensions.code PERSISTED_QUERY_NOT_FOUND"]++
-		}
+		h.Steps = append(h.Steps, st)
 	}
-	return len(path), nil
+	h.Drifted = drifted
+	return h, nil
 }
 
 func mustJSON(v any) string {
@@ -258,7 +272,9 @@ func mustJSON(v any) string {
 	return string(b)
 }
 
-// runReplayFile re-runs one recorded scenario (./check C15 --replay file).
+// runReplayFile re-runs one recorded scenario (./check C15 --replay file):
+// the concrete requests are sent again to a fresh real server and the
+// observed history is validated against the property level by TLC.
 func runReplayFile(file string) {
 	b, err := os.ReadFile(file)
 	if err != nil {
@@ -287,8 +303,12 @@ func runReplayFile(file string) {
 		vlib.Infra("replay: %v", err)
 	}
 	defer rg.Close()
-	failed := false
+	h := &history{ID: "replay", Mech: "replay", Rig: doc.Rig, Workers: 1, cc: cc}
 	for i, st := range doc.Steps {
+		_, pre, err := rg.cache.Now()
+		if err != nil {
+			vlib.Infra("replay: %v", err)
+		}
 		rp, o, err := rg.Do(st.Wire)
 		if err != nil {
 			vlib.Infra("replay: %v", err)
@@ -297,22 +317,19 @@ func runReplayFile(file string) {
 		if err != nil {
 			vlib.Infra("replay: %v", err)
 		}
-		got := cc.abstract(doc.Rig.Kind, doc.Rig.Cap, rp, o, snap)
-		d := diff(st.Want, st.WantT, got)
-		if msg := boundOnRealCache(snap); msg != "" {
-			d = append(d, "bound: "+msg)
-		}
-		fmt.Printf("step %d %s %s%s\n  spec: %s -> %s\n  real: %s\n", i+1, st.Wire.Method, st.Wire.Query, st.Wire.Body, mustJSON(st.Want), mustJSON(st.WantT), mustJSON(got))
-		if len(d) > 0 {
-			fmt.Printf("  DIVERGES in %v\n", d)
-			failed = true
-			break
-		}
+		got := cc.abstract(doc.Rig.Kind, doc.Rig.Cap, rp, o, pre, snap)
+		fmt.Printf("step %d %s %s%s\n  real: %s\n", i+1, st.Wire.Method, st.Wire.Query, st.Wire.Body, mustJSON(got))
+		h.Steps = append(h.Steps, replayStep{Req: st.Req, Wire: st.Wire, Got: &got})
 	}
-	if failed {
-		fmt.Printf("VIOLATION property=C15 replay=%s\n", file)
+	c := vlib.NewCheck("C15", "model_checking")
+	rep := &reporter{c: c, seenKeys: map[string]int{}, soft: map[string]int{}, drifts: map[string]int{}}
+	bad, _, err := rep.validateProp([]*history{h}, vlib.Work("C15-replay"))
+	if err != nil {
+		vlib.Infra("replay: %v", err)
+	}
+	if bad > 0 {
 		os.Exit(1)
 	}
-	fmt.Println("OK replayed scenario conforms to the specification")
+	fmt.Println("OK replayed scenario stays inside the property level of C15")
 	os.Exit(0)
 }
